@@ -252,6 +252,8 @@ theorem layout_forward_core (e1 : Entry) (mid : List Entry) (em : Entry) (rest :
     omega
   apply zipContains_forward _ sig mso (e1.image.length - (e1.csizeField + 49))
   · rw [hlen]; omega
+  · -- the archive starts with the local header of its first entry
+    simp [Entry.image, pk34, hasPrefix, List.isPrefixOf]
   · intro h
     have := hmso h
     rw [drop_image_name e1 _ hwf1.1]
